@@ -303,6 +303,19 @@ func c11Server(run *evid.Run) {
 			add("truncated-"+q, true, append(append([]byte(nil), full...), full[:cut]...))
 		}
 	}
+	// request headers cut short (the connection ends after 1..23 bytes of a header, also behind
+	// complete requests): state shared between connections must survive it, so each of these is
+	// followed at once by control connections
+	{
+		hdr := append(wire.BinHeader(0x00, 3, 0, 3, 0x1234), []byte("abc")...)
+		set := append(wire.BinHeader(0x01, 2, 8, 11, 0x99), []byte{0, 0, 0, 1, 0, 0, 0, 0, 'k', 'x', 'v'}...)
+		for rep := 0; rep < 3; rep++ {
+			for _, cut := range []int{1, 2, 6, 12, 16, 23} {
+				add("truncated-header", true, append([]byte(nil), hdr[:cut]...))
+				add("truncated-header", true, append(append([]byte(nil), set...), hdr[:cut]...))
+			}
+		}
+	}
 	// key-only commands whose total body contradicts key + extras. Everything the command's fixed
 	// format needs (touch / gat: 4 bytes of expiry, then the key) is supplied, followed by a
 	// complete noop, and the client stays connected: a parser that still waits inside this
@@ -512,11 +525,22 @@ func c11Server(run *evid.Run) {
 			}
 			continue
 		}
-		if i%50 == 49 {
-			if c := control(); c != "" {
-				run.Violation("server|"+c, w)
+		if i%50 == 49 || inp.class == "truncated-header" || (inp.binary && len(in) > 0 && len(in) < 24) {
+			n := 1
+			if i%50 != 49 {
+				n = 4 // several at once: pooled per-processor state is what a short header may poison
 			}
-			run.Count("control_probes", 1)
+			res := make(chan string, n)
+			for k := 0; k < n; k++ {
+				go func() { res <- control() }()
+			}
+			for k := 0; k < n; k++ {
+				if c := <-res; c != "" && sig == "" {
+					sig = c
+					run.Violation("server|"+c+"|after "+inp.class, w)
+				}
+			}
+			run.Count("control_probes", int64(n))
 		}
 	}
 	if c := control(); c != "" {
